@@ -68,6 +68,25 @@ fn snapshot_case(
     let snapshot = st.clone();
     rep.eval();
     let r = catch(|| p.perform(st));
+    // an input variable can also be resolved through PushState::with_input directly: same
+    // outcome, same state (on success and in the error) as performing the instruction
+    if let PushProgram::Instruction(push::instruction::PushInstruction::InputVar(var)) = p {
+        let direct = catch(|| snapshot.clone().with_input(var));
+        let same = match (&r, &direct) {
+            (Ok(Ok(a)), Ok(Ok(b))) => a == b,
+            (Ok(Err(a)), Ok(Err(b))) => a.is_recoverable() == b.is_recoverable() && a.state() == b.state() && *b.state() == snapshot,
+            (Err(_), Err(_)) => true,
+            _ => false,
+        };
+        rep.count("with_input:direct-call");
+        if !same {
+            rep.violation(format!("C02/{name}/with_input-differs-from-perform"), || {
+                json!({"origin": origin, "instruction": rendered, "state_before": observe(&snapshot).to_json(),
+                       "perform": format!("{:?}", r.as_ref().map(|x| x.as_ref().map(|_| "Ok").map_err(|e| format!("{:?}", e.error())))),
+                       "with_input": format!("{:?}", direct.as_ref().map(|x| x.as_ref().map(|_| "Ok").map_err(|e| format!("{:?}", e.error()))))})
+            });
+        }
+    }
     let r = match r {
         Ok(r) => r,
         Err(pn) => {
@@ -103,6 +122,29 @@ fn snapshot_case(
             }
             if bad.is_none() && e2.is_recoverable() != recoverable {
                 bad = Some(("map_err_into-severity", e2.state().clone()));
+            }
+            if bad.is_none() && e2.is_fatal() == recoverable {
+                bad = Some(("is_fatal-disagrees-with-is_recoverable", e2.state().clone()));
+            }
+            // map_inner_err converts the cause only: same state, same severity
+            let e2 = e2.map_inner_err(|cause| (cause, ()));
+            if bad.is_none() && (*e2.state() != snapshot || e2.is_recoverable() != recoverable) {
+                bad = Some(("map_inner_err-state-or-severity", e2.state().clone()));
+            }
+            let e2 = e2.map_inner_err(|(cause, ())| cause);
+            // a bare recoverable error recovers to the state it carries
+            if recoverable && bad.is_none() {
+                let bare: push::error::stateful::RecoverableError<PushState, u8> = push::error::stateful::StatefulError::new(snapshot.clone(), 7u8);
+                match Err::<PushState, _>(bare).try_recover() {
+                    Ok(s) if s == snapshot => {}
+                    Ok(s) => bad = Some(("RecoverableError-try_recover-state", s)),
+                    Err(never) => match never {},
+                }
+                let boxed: push::error::stateful::FatalError<PushState, u8> = push::error::stateful::StatefulError::new_boxed(Box::new(snapshot.clone()), 9u8);
+                let s = boxed.into_state();
+                if bad.is_none() && s != snapshot {
+                    bad = Some(("FatalError-into_state", s));
+                }
             }
             let back: PushState = match Err::<PushState, _>(e2).try_recover() {
                 Ok(s) => {
